@@ -90,7 +90,7 @@ class C06(vlib.PropertyCheck):
         cases.append('own %s ; tok 6120622063 ; eval 0 ; eval 0 ; str 20 ; setsep 0 1 ; eval 0 ; str 78 ; setsrc 0 2 ; eval 0 ; dup 0 ; delall' % oracle)
         cases.append('own %s ; str 6b ; str 76 ; pair 0 1 ; str 6b32 ; setk 2 3 ; str 7632 ; setv 2 4 ; setv 2 _ ; delall' % oracle)
         # generated programs
-        nprog = 700 if tier == 'quick' else 8000
+        nprog = 700 if tier == 'quick' else 30000
         specs = []
         for i in range(nprog):
             theme = ['own', 'own', 'map', 'dupi'][i % 4]
